@@ -103,6 +103,7 @@ def run(rep):
                                       {'correspondence': 'impl<->' + label, 'type': cases[ci]['type'], 'ops': cases[ci]['ops'][:d + 1]}, found_input=False)
             rep.coverage['evaluations'] = rep.coverage.get('evaluations', 0) + len(cases)
             rep.coverage['traces_validated_against_impl'] = rep.coverage.get('traces_validated_against_impl', 0) + len(cases)
+        nested_views(rep, m, rep.tier == 'quick')
         corp.coverage({'states_judged': sum(len(r) for r in corp.impl), 'impl_model_differences': len(diffs)})
     finally:
         corp.close()
@@ -110,6 +111,37 @@ def run(rep):
         if not rep.violations:
             rep.violation('Properties/C06.v no longer checks (theorem %s)' % res['failing'], {'theorem': res['failing'], 'log': res['log'][-3000:]}, found_input=False)
     rep.assumptions += ['dot set/unset are exercised by C15; nested documents by C08', 'M_py is tied to the code only by this correspondence']
+
+
+def nested_views(rep, m, quick):
+    """the two views over WHOLE documents, after calls on one element whose target belongs to another (remove / replace of a grandchild, a sibling,
+    a sibling's child, an unattached element; an inadmissible add): at every node of the document the schema-ordered view must still hold exactly the
+    children of the insertion-ordered view, and every child must point at its parent (the runner is shared with C10)"""
+    import random
+    from . import docgen, impl as I
+    g = m.g
+    rng = random.Random(rep.seed * 19 + 2)
+    G = docgen.Gen(g, rng)
+    small = ['pitch', 'step', 'footnote', 'voice', 'duration', 'staff', 'octave', 'level', 'dot', 'tie', 'beam', 'fermata', 'words']
+    cases = []
+    for name in ('note', 'measure', 'attributes', 'direction', 'harmony', 'notations', 'part-list', 'score-part', 'barline', 'print', 'defaults', 'identification', 'lyric', 'part', 'score-partwise'):
+        for _ in range(12 if quick else 150):
+            cases.append({'doc': G.element(name, 0, 4), 'extra': G.element(rng.choice(small), 0, 2)})
+    outs = I.run_sharded('c10_nested_runner.py', lambda i, sh: {'seed': rep.seed * 100 + i, 'cases': sh}, cases)
+    n = 0
+    seen = set()
+    for sh, res in outs:
+        for r in res:
+            if 'skip' in r or r.get('inv_before') != []:
+                continue
+            n += 1
+            if r.get('inv_after') and (r['kind'], r['receiver']) not in seen:
+                seen.add((r['kind'], r['receiver']))
+                rep.finding_or_violation('C06:nested:' + r['kind'], 'after %s.%s(%s) (%s) the views of the document disagree: %s' % (
+                    r['receiver'], r['kind'], r['target'], 'raised ' + r['raised'] if r.get('raised') else 'returned', r['inv_after']),
+                    {'kind': r['kind'], 'receiver': r['receiver'], 'target': r['target'], 'raised': r.get('raised'), 'views_disagree_at': r['inv_after'],
+                     'doc': sh[r['case']]['doc'], 'extra': sh[r['case']]['extra']})
+    rep.coverage['nested_calls_with_foreign_targets'] = n
 
 
 def replay(path):
